@@ -66,12 +66,11 @@ PLAN = {
         "explanation": 'cell-boundary candidate time / direction / boundary proved (contract); bookkeeping == positions by a bounded run-time monitor and a bounded event-loop harness on the real occupancy',
     },
     "C12": {
-        "sidecars": [],
+        "sidecars": ["contracts.composite_c12"],
         "extra": ["monitors.provider:bounded", "bounded.provider:composite"],
         "level": "other",
-        "bounded_only": True,
         "trusted": COMMON_TRUSTED + ["run-time monitors are a bounded stand-in: they cover the shipped configurations for the stated number of events only"],
-        "explanation": 'bounded run-time monitor of composite velocity and barycentre at every commit + bounded harness on the real node creators and handlers (2 and 3 point masses)',
+        "explanation": 'the per-leaf registration step (composite change = weight x leaf change, two-level trees) proved; bounded run-time monitor of composite velocity and barycentre at every commit + bounded harness on the real node creators and handlers (2 and 3 point masses)',
     },
     "C13": {
         "sidecars": [],
